@@ -801,8 +801,9 @@ func (e *Env) index(x *EIndex) Val {
 		return Val{S: app("select", v.S, g.toIdx(i)), Sort: g.sortOf(u.Elem()), GT: u.Elem()}
 	case *types.Map:
 		i = e.concretize(i, u.Key())
-		_, vk := g.mapKeys(u)
-		return Val{S: app("select", app("select", e.heapGet(vk), v.S), i.S), Sort: g.sortOf(u.Elem()), GT: u.Elem()}
+		dk, vk := g.mapKeys(u)
+		present := and(not(eq(v.S, "nilptr")), app("select", app("select", e.heapGet(dk), v.S), i.S))
+		return Val{S: ite(present, app("select", app("select", e.heapGet(vk), v.S), i.S), g.zero(u.Elem()).S), Sort: g.sortOf(u.Elem()), GT: u.Elem()}
 	case *types.Pointer:
 		if at, ok := u.Elem().Underlying().(*types.Array); ok && isLeafElem(at.Elem()) {
 			i = e.concretize(i, tInt)
